@@ -128,10 +128,76 @@ fn case_descriptors(out: &mut CaseOut, rng: &mut Rng) {
         out.add("descriptor_calls", 1);
         out.nontrivial(format!("descriptor/{}/{}", name, if r.is_ok() { "ok" } else { "err" }));
     }
+    // legal but unusual calls, each followed by an ordinary write and read: whatever the odd call
+    // answered, it must not leave anything behind that keeps the next caller waiting
+    let mut odd: Vec<&str> = vec!["empty-batch", "empty-key", "huge-batch-on-one-key", "inverted-range-compaction", "single-key-compaction", "snapshots-released-newest-first",
+        "iterator-seeks-past-the-end", "synchronous-write", "delete-of-a-key-never-written", "empty-batch-synchronous"];
+    rng.shuffle(&mut odd);
+    for what in odd {
+        {
+            let _g = watch::enter(&format!("odd-call:{what}"));
+            let db = sess.db();
+            match what {
+                "empty-batch" => {
+                    let _ = db.apply(WriteOptions::default(), raindb::Batch::new());
+                }
+                "empty-batch-synchronous" => {
+                    let _ = db.apply(WriteOptions { synchronous: true }, raindb::Batch::new());
+                }
+                "empty-key" => {
+                    let _ = db.put(WriteOptions::default(), vec![], vec![]);
+                    let _ = db.get(raindb::ReadOptions::default(), &[]);
+                    let _ = db.delete(WriteOptions::default(), vec![]);
+                }
+                "huge-batch-on-one-key" => {
+                    let mut b = raindb::Batch::new();
+                    for i in 0..3000u32 {
+                        if i % 7 == 0 {
+                            b.add_delete(b"odd-one-key".to_vec());
+                        } else {
+                            b.add_put(b"odd-one-key".to_vec(), i.to_be_bytes().to_vec());
+                        }
+                    }
+                    let _ = db.apply(WriteOptions::default(), b);
+                }
+                "inverted-range-compaction" => db.compact_range(Some(&b"k9"[..])..Some(&b"k0"[..])),
+                "single-key-compaction" => {
+                    let k = rng.pick(&pool).clone();
+                    db.compact_range(Some(k.as_slice())..Some(k.as_slice()));
+                }
+                "snapshots-released-newest-first" => {
+                    let snaps: Vec<_> = (0..4).map(|_| db.get_snapshot()).collect();
+                    for s in snaps.into_iter().rev() {
+                        db.release_snapshot(s);
+                    }
+                }
+                "iterator-seeks-past-the-end" => {
+                    use raindb::RainDbIterator;
+                    if let Ok(mut it) = db.new_iterator(raindb::ReadOptions::default()) {
+                        let _ = it.seek(&vec![0xffu8; 40]);
+                        let _ = it.is_valid();
+                        let _ = it.seek_to_last();
+                        let _ = it.seek_to_first();
+                    }
+                }
+                "synchronous-write" => {
+                    let _ = db.put(WriteOptions { synchronous: true }, b"odd-sync".to_vec(), b"1".to_vec());
+                }
+                _ => {
+                    let _ = db.delete(WriteOptions::default(), b"odd-never-written".to_vec());
+                }
+            }
+        }
+        out.add("odd_calls", 1);
+        let _g = watch::enter(&format!("write-after-odd-call:{what}"));
+        let k = rng.pick(&pool).clone();
+        let _ = sess.db().put(WriteOptions::default(), k.clone(), b"after-odd-call".to_vec());
+        let _ = sess.db().get(raindb::ReadOptions::default(), &k);
+    }
     liveness_probe(out, sess.db(), cfg.memtable, "C09");
     sess.close();
     judge_bg_panics(out, "C09");
-    out.sample = Some(json!({"family": "descriptors", "config": cfg.describe(), "puts_before": n}));
+    out.sample = Some(json!({"family": "descriptors-and-odd-calls", "config": cfg.describe(), "puts_before": n}));
 }
 
 struct NullObserver;
